@@ -759,16 +759,49 @@ func builderSites() []*chSite {
 				"OpNotEq": "error|type:logqlengine.NotMatcher[netip.Addr,logqlengine.EqualIPMatcher]|type:logqlengine.NotMatcher[netip.Addr,logqlengine.PrefixIPMatcher]|type:logqlengine.NotMatcher[netip.Addr,logqlengine.RangeIPMatcher]"},
 			Other: "error", Claim: "ip matcher implements = and != (negated forms wrap the positive matcher in NotMatcher)"},
 		{Rule: "CH-MAP", Rel: enginePkg, Fn: "buildLabelPredicate", TagType: op, TagConst: "OpAnd",
-			Outcome:  onlyPrefix(outReturn(0, "", ""), "type:"),
+			// over the paths that reach the operator dispatch: every one of them builds the composite (a
+			// short cut that merges the two operands into something else shows up as another outcome)
+			Outcome:  outReturnViaTag(op, "OpAnd"),
 			Expected: map[string]string{"OpAnd": "type:*logqlengine.AndLabelMatcher", "OpOr": "type:*logqlengine.OrLabelMatcher"},
 			Only:     func(n string) bool { return n == "OpAnd" || n == "OpOr" || n == "OpUnless" || n == "<other>" },
-			Other:    "", Claim: "and/or predicate builds the matching composite"},
+			Other:    "error", Claim: "and/or predicate builds the matching composite"},
 	}
 }
 
 func ruleCHBuilders(r *Run) {
 	for _, s := range builderSites() {
 		runCHSite(r, s)
+	}
+}
+
+// outReturnViaTag: outReturn(0) over the paths that evaluate the dispatch value (the other arms of
+// an enclosing type switch do not take part in the dispatch).
+func outReturnViaTag(tagType [2]string, tagConst string) func(r *Run, fn *ssa.Function, cr caseResult) string {
+	base := outReturn(0, "", "")
+	return func(r *Run, fn *ssa.Function, cr caseResult) string {
+		T := r.P.NamedType(tagType[0], tagType[1])
+		var tb *ssa.BasicBlock
+		if T != nil {
+			if tag := pickTag(fn, T, enumConstants(T)[tagConst]); tag != nil {
+				if in, ok := tag.(ssa.Instruction); ok {
+					tb = in.Block()
+				}
+			}
+		}
+		if tb == nil {
+			return base(r, fn, cr)
+		}
+		sub := cr
+		sub.Ends = nil
+		for _, e := range cr.Ends {
+			for _, b := range e.State.trail {
+				if b == tb {
+					sub.Ends = append(sub.Ends, e)
+					break
+				}
+			}
+		}
+		return base(r, fn, sub)
 	}
 }
 
